@@ -31,6 +31,12 @@ OPS = [
     (r'\.push\(', '.insert(0, '),
     (r'\.extend\(', '.clone_from(&'),   # usually does not compile: filtered out
     (r'\.filter\(\|', '.filter(|_| true).filter(|'),   # equivalent: sanity (must survive and be missed)
+    # statement deletion: a whole one-line mutation statement is dropped
+    (r'^\s*[A-Za-z_][\w\.]*\.(push|insert|extend|retain|sort|sort_by|sort_by_key|dedup)\(.*\);\s*$', ''),
+    (r'^\s*\*?[A-Za-z_][\w\.]* [\+\-\|&]?= [^;]*;\s*$', ''),
+    (r'\.chain\(', '.zip('),       # usually does not compile
+    (r'\.skip\(', '.take('),
+    (r'\.take\(', '.skip('),
 ]
 
 
